@@ -11,7 +11,7 @@ import (
 func init() { register("C06", propC06) }
 
 func propC06(c *Ctx) {
-	c.Explanation = "That every emitted frame decodes under an independent decoder in every scenario is behavioural; decided here are the construction rules that make it so, for every argument value. The bit layout of every header field is decided by C15 (bit provenance against RFC tables) and is not repeated. (E0) the Internet checksum never drops a carry (shared with C15/B4). (E1) checksum def-use and order: IPv4 header checksum = complement of Checksum(header[:IHL], 0), computed after Encode and stored last before the link write; TCP and UDP checksums = complement of Checksum(header, Checksum(length, pseudo-header(src,dst,proto) continued over every payload view)), length = header + payload, skipped only under checksum offload; ICMPv6 = complement of the sum over src, dst, 32-bit length, next-header 58, payload views and the header with its checksum bytes zeroed and restored; the pseudo-header uses the route's local and remote address. (E2) length fields: IPv4 TotalLength = UsedLength AFTER this layer's Prepend + payload size and the 16-bit narrowing is guarded; UDP Length likewise (narrowing: C11/U6); IPv6 PayloadLength = UsedLength BEFORE its Prepend + payload size; TCP DataOffset = 20 + len(options) = the prepended size, options copied right after the fixed header. (E3) addressing: IP source/destination = route local/remote address; TCP ports from the endpoint id handed in (replyWithReset passes the segment's own id and route), UDP ports from the arguments; Ethernet destination = the route's remote link address, source = the route's local link address (or the NIC's own when the route has no local address), type = the protocol argument. (E4) IPv4 ID: packets longer than 68 bytes take atomic.AddUint32(&ids[hash(route,proto) % buckets], 1), so consecutive large packets of one flow differ; others 0. (E5) TCP options: for every combination of {TS, SACK-permitted, WS >= 0} in makeSynOptions and {TS, SACK blocks} in makeOptions the encoded length is a multiple of 4 and fits the 40-byte option buffer (path evaluation with each encoder's own size), so no padding is needed and the two 'unexpected option encoding' panics are unreachable. (E6) FindRoute scans the route table from index 0 upwards and returns at the first entry that matches and has a usable endpoint; the source address is that endpoint's own address, the next hop the entry's gateway; (E6m) an entry matches only when every byte of the destination agrees under the entry's mask (partial mask bytes included). (E0w) no 16-bit word handed to Checksum/ChecksumCombine anywhere in the module comes from wrapping 16-bit arithmetic or a lossy narrowing (interval evaluation). (E7) neighbour-cache ring reuse unmaps the old key before the slot is overwritten (shared with C12/T3), so the link address returned for a next hop is that neighbour's. NOT decided: checksum arithmetic beyond carry handling (induction over the loop), views of odd length in the middle of a payload, frames of scenarios no rule names (DNS, DHCP helpers), the fd-based endpoint's writev."
+	c.Explanation = "That every emitted frame decodes under an independent decoder in every scenario is behavioural; decided here are the construction rules that make it so, for every argument value. The bit layout of every header field is decided by C15 (bit provenance against RFC tables) and is not repeated. (E0) the Internet checksum never drops a carry (shared with C15/B4). (E1) checksum def-use and order: IPv4 header checksum = complement of Checksum(header[:IHL], 0), computed after Encode and stored last before the link write; TCP and UDP checksums = complement of Checksum(header, Checksum(length, pseudo-header(src,dst,proto) continued over every payload view)), length = header + payload, skipped only under checksum offload; ICMPv6 = complement of the sum over src, dst, 32-bit length, next-header 58, payload views and the header with its checksum bytes zeroed and restored; the pseudo-header uses the route's local and remote address. (E2) length fields: IPv4 TotalLength = UsedLength AFTER this layer's Prepend + payload size and the 16-bit narrowing is guarded; UDP Length likewise (narrowing: C11/U6); IPv6 PayloadLength = UsedLength BEFORE its Prepend + payload size; TCP DataOffset = 20 + len(options) = the prepended size, options copied right after the fixed header. (E3) addressing: IP source/destination = route local/remote address; TCP ports from the endpoint id handed in (replyWithReset passes the segment's own id and route), UDP ports from the arguments; Ethernet destination = the route's remote link address, source = the route's local link address (or the NIC's own when the route has no local address), type = the protocol argument. (E4) IPv4 ID: packets longer than 68 bytes take atomic.AddUint32(&ids[hash(route,proto) % buckets], 1), so consecutive large packets of one flow differ; others 0. (E5) TCP options: for every combination of {TS, SACK-permitted, WS >= 0} in makeSynOptions and {TS, SACK blocks} in makeOptions the encoded length is a multiple of 4 and fits the 40-byte option buffer (path evaluation with each encoder's own size), so no padding is needed and the two 'unexpected option encoding' panics are unreachable. (E6) FindRoute scans the route table from index 0 upwards and returns at the first entry that matches and has a usable endpoint; the source address is that endpoint's own address, the next hop the entry's gateway; (E6m) an entry matches only when every byte of the destination agrees under the entry's mask (partial mask bytes included). (E0w) no 16-bit word handed to Checksum/ChecksumCombine anywhere in the module comes from wrapping 16-bit arithmetic or a lossy narrowing (interval evaluation). (E7) neighbour-cache ring reuse unmaps the old key before the slot is overwritten (shared with C12/T3), so the link address returned for a next hop is that neighbour's. E3 also decides that udp Connect keeps the bound local port (the zero port only from the unbound state; shared with C09/D6). NOT decided: checksum arithmetic beyond carry handling (induction over the loop), views of odd length in the middle of a payload, frames of scenarios no rule names (DNS, DHCP helpers), the fd-based endpoint's writev."
 
 	checksumCarryRule(c, "E0")
 
@@ -191,6 +191,7 @@ func propC06(c *Ctx) {
 	propC06Options(c, e5)
 
 	maskedMatchRule(c, "E6m")
+	udpConnectPortRule(c, "E3")
 	e7 := c.Rule("E7", "K7 site table + K2 order (shared with C12/T3)", "the neighbour cache never maps an address to another neighbour's entry: ring-slot reuse unmaps the old key before the overwrite", 10)
 	linkCacheRingRule(c, e7)
 	e6 := c.Rule("E6", "K9 site table", "first matching route entry, source = chosen endpoint's address", 5)
